@@ -25,7 +25,7 @@ TOLERATED_DISCARD = {"records_by_key": "stale ids in the by-key index are skippe
 def r1(ctx, rule="C16.R1", only=None):
     f = ctx.facts
     types = tables.table_types(f)
-    fam = f.family(RR)
+    fam = f.scope(RR, prefix="store::fs::")
     ctx.touch(*fam)
     cleared = {}
     for b in fam:
@@ -83,7 +83,7 @@ def r1(ctx, rule="C16.R1", only=None):
 def r2(ctx):
     f = ctx.facts
     types = tables.table_types(f)
-    fam = f.family(RR)
+    fam = f.scope(RR, prefix="store::fs::")
     outer = fam[0]
     n = 0
     for b in fam:
@@ -93,16 +93,9 @@ def r2(ctx):
                 continue
             # first non-self argument: key or bounds
             keyop = t["a"][1]
-            from .common import leaves
-            names = set()
-            for o in leaves(b, keyop):
-                if o.kind == "upvar":
-                    names.add("upvar:%s" % o.data)
-                elif o.kind == "arg":
-                    names.add("arg:%s" % o.data[1])
-                else:
-                    names.add(origin_summary(o))
-            ok = all(("namespace" in x) and ("default" not in x) for x in names) and bool(names)
+            from .common import outer_names
+            names = outer_names(f, outer, b, keyop)
+            ok = names == {"arg:namespace"}
             n += 1
             ctx.check(ok, "C16.R2", RR, "key-from-namespace.%s.%s" % (ct[0], ct[1]), "removal key/bounds derive from: %s" % sorted(names), t["sp"])
     if n < 5:
@@ -232,7 +225,7 @@ def r4(ctx):
     f = ctx.facts
     types = tables.table_types(f)
     n = 0
-    for b in f.family(RR):
+    for b in f.scope(RR, prefix="store::fs::"):
         for bi, t in b.calls():
             ct = tables.call_table(t, types)
             if ct:
